@@ -183,6 +183,9 @@ func main() {
 		}
 		return
 	}
+	for _, n := range p.Notes {
+		fmt.Println("note:", n)
+	}
 	ids := []string{*prop}
 	if *prop == "all" {
 		ids = ids[:0]
@@ -207,6 +210,7 @@ func main() {
 		}
 		t1 := time.Now()
 		c := q.NewCtx(p, id, *tier)
+		c.Notes = append(c.Notes, p.Notes...)
 		// load health is an obligation of every run
 		c.Check(len(p.Errors) == 0, "load", "program", "type-checks without error", "-", strings.Join(p.Errors, "; "))
 		c.Check(len(p.Pkgs) >= load.MinPackages, "load", "program", fmt.Sprintf("at least %d module packages analysed", load.MinPackages), "-", fmt.Sprintf("%d packages", len(p.Pkgs)))
@@ -339,6 +343,7 @@ func writeEvidence(verif string, c *q.Ctx, total, dis, nviol int, wall float64, 
 			"packages":             len(c.P.Pkgs),
 			"functions_in_program": len(c.P.AllFns),
 			"exhaustive":           true,
+			"normalisation":        map[string]any{"helper_call_sites_inlined": len(c.P.Inlined), "helpers_absorbed": len(c.P.Absorbed), "rule": "private helpers whose name no rule mentions are absorbed into their callers; boolean/nil-decided phi edges are threaded; see DESIGN.md section 2"},
 			"checker_cmd":          "bin/xvc -property " + c.Prop + " -tier " + tier,
 			"trusted_base":         []string{"go/types type checker", "golang.org/x/tools v0.29.0 go/packages + go/ssa construction and dominators", "the frozen rule tables in xvc/rules (each line confirmed by reading the anchor)", "library axioms listed in assumptions"},
 			"notes":                c.Notes,
